@@ -309,7 +309,15 @@ impl Model {
                         if !self.scopes[cur].names.contains_key(last) {
                             return Err("AMBIGUOUS".into());
                         }
-                        if self.scopes[scope].names.contains_key(last) || self.scopes[scope].uses.contains_key(last) {
+                        if let Some(prev) = self.scopes[scope].uses.get(last) {
+                            if *prev != (cur, last.clone()) {
+                                // two use declarations give one name to two different items: the name is taken
+                                return Err(format!("use alias {last:?} already names another item in its scope"));
+                            }
+                            // naming the same item twice: not covered by the statement
+                            return Err("AMBIGUOUS".into());
+                        }
+                        if self.scopes[scope].names.contains_key(last) {
                             // the statement does not say whether an alias may coexist with a declaration
                             // of the same name: outside the domain
                             return Err("AMBIGUOUS".into());
@@ -595,6 +603,29 @@ fn build_case(ctl: &[u8], excl: &[String]) -> Built {
         4 if !has("C18-F3") => {
             items.push(Spec::Use { paths: vec![vec![]] });
             g.defect = Some("use with an empty path".into());
+        }
+        6 | 7 => {
+            // two use declarations at the root that give one name to two different items
+            let mut pair: Option<(Vec<String>, Vec<String>)> = None;
+            'find: for a in &targets {
+                for b in &targets {
+                    if a.len() >= 2 && b.len() >= 2 && a != b && a.last() == b.last() {
+                        pair = Some((a.clone(), b.clone()));
+                        break 'find;
+                    }
+                }
+            }
+            if let Some((a, b)) = pair {
+                let one_decl = g.c.chance(128);
+                if one_decl {
+                    items.push(Spec::Use { paths: vec![a.clone(), b.clone()] });
+                } else {
+                    items.push(Spec::Use { paths: vec![a.clone()] });
+                    items.push(Spec::Use { paths: vec![b.clone()] });
+                }
+                // (when something else already makes the library invalid or ambiguous the model says so)
+                g.defect = Some(format!("uses of {} and {} under one name", a.join("::"), b.join("::")));
+            }
         }
         5 => {
             items.push(Spec::Function { name: "needs_unregistered".into(), shape: 1, marker: 5, tag: 998 });
